@@ -30,7 +30,7 @@ struct HExo : public ExogenousModel {
 
 struct HMeas : public LTIMeasurementModel {
     HMeas(const MatrixXd& H, const MatrixXd& R, const VectorXd& y) : LTIMeasurementModel(H, R), y_(y) {}
-    bool freeze(const Data&) override { return true; }
+    bool freeze(const Data& d) override { if (d.has_value()) y_ = any::any_cast<VectorXd>(d); return true; }
     std::pair<bool, Data> measure(const Data&) const override { MatrixXd y = y_; return std::make_pair(true, Data(y)); }
     VectorDescription getInputDescription() const override { return VectorDescription(H_.cols(), 0, R_.rows()); }
     VectorDescription getMeasurementDescription() const override { return VectorDescription(H_.rows()); }
@@ -84,10 +84,67 @@ static std::string kfc(Toks& t) {
     return o.str();
 }
 
+// One KFPrediction object, several predict calls with varying component counts:
+//   kfps n exo F Q [G g] ncalls { k means covs outw }*
+static std::string kfps(Toks& t) {
+    long n = t.nat(); bool exo = t.flag();
+    MatrixXd F = t.mat(n, n), Q = t.mat(n, n);
+    std::unique_ptr<HState> sm(new HState(F, Q));
+    if (exo) { MatrixXd G = t.mat(n, n); VectorXd g = t.vec(n); sm->add_exogenous_model(std::unique_ptr<ExogenousModel>(new HExo(G, g))); }
+    KFPrediction p(std::move(sm));
+    long calls = t.nat();
+    Out o; o.s("ok");
+    for (long c = 0; c < calls; ++c) {
+        long k = t.nat();
+        GaussianMixture prev(k, n), pred(k, n);
+        fillGM(t, prev, n, k);
+        pred.weight() = t.vec(k);
+        pred.mean().setConstant(12345.0); pred.covariance().setConstant(-54321.0);
+        MatrixXd m0 = prev.mean(), c0 = prev.covariance(), w0 = prev.weight();
+        p.predict(prev, pred);
+        bool same = vh::same_bits(m0, prev.mean()) && vh::same_bits(c0, prev.covariance()) && vh::same_bits(w0, prev.weight());
+        o.s("call"); outGM(o, pred); o.s(same ? "in-same" : "in-modified");
+    }
+    t.done();
+    return o.str();
+}
+
+// One KFCorrection object, several correct calls (new measurement through freeze, varying
+// component counts), likelihood queried before the first call and after each call:
+//   kfcs n m H R ncalls { k y means covs outw }*
+static std::string kfcs(Toks& t) {
+    long n = t.nat(), m = t.nat();
+    MatrixXd H = t.mat(m, n), R = t.mat(m, m);
+    KFCorrection c(std::unique_ptr<LinearMeasurementModel>(new HMeas(H, R, VectorXd::Zero(m))));
+    long calls = t.nat();
+    Out o; o.s("ok");
+    { bool v; VectorXd l; std::tie(v, l) = c.getLikelihood(); o.s(v ? "prelik" : "noprelik"); }
+    for (long cc = 0; cc < calls; ++cc) {
+        long k = t.nat();
+        VectorXd y = t.vec(m);
+        GaussianMixture pred(k, n), corr(k, n);
+        fillGM(t, pred, n, k);
+        corr.weight() = t.vec(k);
+        corr.mean().setConstant(12345.0); corr.covariance().setConstant(-54321.0);
+        MatrixXd m0 = pred.mean(), c0 = pred.covariance(), w0 = pred.weight();
+        c.freeze_measurements(Data(y));
+        c.correct(pred, corr);
+        bool same = vh::same_bits(m0, pred.mean()) && vh::same_bits(c0, pred.covariance()) && vh::same_bits(w0, pred.weight());
+        bool valid; VectorXd lik;
+        std::tie(valid, lik) = c.getLikelihood();
+        o.s("call"); outGM(o, corr); o.s(same ? "in-same" : "in-modified");
+        o.s(valid ? "lik" : "nolik"); if (valid) { o.n(lik.size()); o.m(lik); }
+    }
+    t.done();
+    return o.str();
+}
+
 int main() {
     return vh::run([](const std::string& op, Toks& t, std::string& out) {
         if (op == "kfp") { out = kfp(t); return true; }
         if (op == "kfc") { out = kfc(t); return true; }
+        if (op == "kfps") { out = kfps(t); return true; }
+        if (op == "kfcs") { out = kfcs(t); return true; }
         return false;
     });
 }
